@@ -491,8 +491,7 @@ def template_reload(ctx, rng):
 
 
 def run(ctx):
-    if ctx.shard == 0:
-        threads_phase(ctx, ctx.rng)
+    threads_phase(ctx, ctx.rng)      # (thread timing is a matter of chance: every shard has a go)
     if ctx.shard == 1 % max(ctx.nshards, 1):
         template_reload(ctx, ctx.rng)
     tz = TZS[ctx.shard % len(TZS)]
